@@ -26,9 +26,15 @@ pub fn timeline_case(r: &mut Rng, n_peers: usize, minutes: u64, gap_ms: u64, ser
     timeline_case_x(r, n_peers, minutes, gap_ms, server_mode, blackout, false)
 }
 
+pub fn timeline_case_x(r: &mut Rng, n_peers: usize, minutes: u64, gap_ms: u64, server_mode: bool, blackout: Option<(u64, u64)>, crowd: bool) -> String {
+    timeline_case_p(r, n_peers, minutes, gap_ms, server_mode, blackout, crowd, None)
+}
+
 /// `crowd`: 20 peers that do not support signed peers fill one bucket of the main table; the others (which do) only
 /// fit into the signed-peers table
-pub fn timeline_case_x(r: &mut Rng, n_peers: usize, minutes: u64, gap_ms: u64, server_mode: bool, blackout: Option<(u64, u64)>, crowd: bool) -> String {
+/// `pause`: Some((a, len)): at minute a the bootstrap node goes down for good and the node is not scheduled for len
+/// minutes (a stopped process, a suspended machine); the other peers stay up
+pub fn timeline_case_p(r: &mut Rng, n_peers: usize, minutes: u64, gap_ms: u64, server_mode: bool, blackout: Option<(u64, u64)>, crowd: bool, pause: Option<(u64, u64)>) -> String {
     let t0 = 1000u64;
     simclock::set_ms(t0);
     tape_seed(r.next());
@@ -47,6 +53,19 @@ pub fn timeline_case_x(r: &mut Rng, n_peers: usize, minutes: u64, gap_ms: u64, s
     let mut legacy: Vec<usize> = peers.iter().enumerate().filter(|(_, p)| p.legacy).map(|(i, _)| i).collect();
     let mut cur: Vec<usize> = (0..n_peers).collect();
     let mut up: Vec<bool> = vec![true; n_peers];
+    let mut up_since: Vec<u64> = vec![t0; n_peers];
+    let mut paused = false;
+    let mut prev_table: Vec<usize> = Vec::new();
+    // when an identity entered the node's main table (absent one iteration before)
+    let mut entered: std::collections::HashMap<usize, u64> = std::collections::HashMap::new();
+    // the pause script: only the bootstrap node is there at first (so the node's own-id lookups know nobody else); the
+    // others come up at minute 16, after the first refresh, and are found by a lookup at minute 17
+    let mut script_stage = 0u8;
+    if pause.is_some() {
+        for u in up.iter_mut().skip(1) {
+            *u = false;
+        }
+    }
     let mut queue: VecDeque<Q> = VecDeque::new();
     // visitors: nodes that only ever send requests to this node (they bootstrap from it, say) and answer nothing
     let visitors: Vec<Peer> = (0..2).map(|i| Peer::new(peer_id(200 + i, r))).collect();
@@ -68,8 +87,32 @@ pub fn timeline_case_x(r: &mut Rng, n_peers: usize, minutes: u64, gap_ms: u64, s
                 5 | 6 | 7 => r.range(5_000, 60_000),
                 _ => r.range(60_000, gap_ms),
             };
+            let mut waking = false;
+            let dt = match pause {
+                Some((a, len)) if !paused && now >= t0 + a * 60_000 => {
+                    paused = true;
+                    waking = true;
+                    up[0] = false;
+                    len * 60_000
+                }
+                _ => dt,
+            };
+            let dt = if pause.is_some() && script_stage < 2 { dt.min(45_000) } else { dt };
             now += dt;
             simclock::set_ms(now);
+            if pause.is_some() && script_stage == 0 && now >= t0 + 16 * 60_000 {
+                script_stage = 1;
+                for (p, u) in up.iter_mut().enumerate().skip(1) {
+                    *u = true;
+                    up_since[p] = now;
+                }
+            }
+            if pause.is_some() && script_stage == 1 && now >= t0 + 17 * 60_000 {
+                script_stage = 2;
+                let (tx, rx) = flume::unbounded();
+                node.actor.verif_get(crate::c20::request_of(0, Id::random()), ResponseSender::ClosestNodes(tx));
+                keep.push(rx);
+            }
             // a scripted blackout: every peer is down from minute a to minute b, then all are back
             let dark = match blackout {
                 Some((a, b)) => now >= t0 + a * 60_000 && now < t0 + b * 60_000,
@@ -81,18 +124,22 @@ pub fn timeline_case_x(r: &mut Rng, n_peers: usize, minutes: u64, gap_ms: u64, s
                         *u = false;
                     }
                 } else if now >= t0 + b * 60_000 && now - dt < t0 + b * 60_000 {
-                    for u in up.iter_mut() {
+                    for (p, u) in up.iter_mut().enumerate() {
+                        if !*u {
+                            up_since[p] = now;
+                        }
                         *u = true;
                     }
                 }
             }
             // roughly every 8 minutes something happens to some peer
-            if !dark && r.below(480_000) < dt.max(1) {
+            if !dark && pause.is_none() && r.below(480_000) < dt.max(1) {
                 let p = r.below(n_peers as u64) as usize;
                 if up[p] {
                     up[p] = false;
                 } else if r.chance(1, 2) {
                     up[p] = true;
+                    up_since[p] = now;
                 } else {
                     // restart: same address, new id
                     restarts += 1;
@@ -107,10 +154,12 @@ pub fn timeline_case_x(r: &mut Rng, n_peers: usize, minutes: u64, gap_ms: u64, s
                     }
                     cur[p] = idents.len() - 1;
                     up[p] = true;
+                    up_since[p] = now;
                 }
             }
             // a visitor asks this node: find_node(own id) (read-only or not), or a ping
-            if r.below(if dark { 100_000 } else { 400_000 }) < dt.max(1) {
+            // (nothing else happens in the iteration the node wakes up in: its maintenance runs on what it knew)
+            if !waking && r.below(if dark { 100_000 } else { 400_000 }) < dt.max(1) {
                 let v = r.below(visitors.len() as u64) as usize;
                 let ro = !dark && r.chance(1, 4);
                 let find = r.chance(3, 4);
@@ -121,7 +170,7 @@ pub fn timeline_case_x(r: &mut Rng, n_peers: usize, minutes: u64, gap_ms: u64, s
                 queue.push_back(Q::Req(visitor_ident0 + v, find && !ro && server_mode));
             }
             // lookups at arbitrary instants
-            if r.below(600_000) < dt.max(1) {
+            if !waking && r.below(600_000) < dt.max(1) {
                 let (tx, rx) = flume::unbounded();
                 let kind = if r.chance(1, 2) { 0 } else { 1 };
                 node.actor.verif_get(crate::c20::request_of(kind, Id::random()), ResponseSender::ClosestNodes(tx));
@@ -176,8 +225,18 @@ pub fn timeline_case_x(r: &mut Rng, n_peers: usize, minutes: u64, gap_ms: u64, s
         };
         let table = dump(&snap.table);
         let signed = dump(&snap.signed_table);
+        // an observation about the world, not about the node: some peer that was in the node's table one iteration ago
+        // (a table of at most 20 entries: the refresh asks every one of them) is up and has been ever since it entered the table
+        let known_up = prev_table.len() <= 20 && (0..n_peers).any(|p| up[p] && prev_table.contains(&cur[p]) && entered.get(&cur[p]).map_or(false, |e| up_since[p] <= *e));
+        let table_now: Vec<usize> = snap.table.iter().filter_map(|n| idents.iter().position(|(id, a)| id == n.id().as_bytes() && *a == n.address())).collect();
+        for k in &table_now {
+            if !prev_table.contains(k) {
+                entered.insert(*k, now);
+            }
+        }
+        prev_table = table_now;
         ticks.push(format!(
-            "{{| k_now := {}; k_in := {}; k_pinged := [{}]; k_table := [{}]; k_signed := [{}]; k_boot_up := {} |}}",
+            "{{| k_now := {}; k_in := {}; k_pinged := [{}]; k_table := [{}]; k_signed := [{}]; k_boot_up := {}; k_known_up := {} |}}",
             z(now as i128),
             match processed {
                 Some(Q::Resp(i)) => format!("(KResp {}%nat)", i),
@@ -187,7 +246,8 @@ pub fn timeline_case_x(r: &mut Rng, n_peers: usize, minutes: u64, gap_ms: u64, s
             pinged.iter().map(|a| format!("({}, {})", u32::from(*a.ip()), a.port())).collect::<Vec<_>>().join("; "),
             table.join(";"),
             signed.join(";"),
-            boolean(up[0])
+            boolean(up[0]),
+            boolean(known_up)
         ));
     }
     let _: MessageType;
@@ -196,7 +256,7 @@ pub fn timeline_case_x(r: &mut Rng, n_peers: usize, minutes: u64, gap_ms: u64, s
         n_hex(&self_id),
         idents.iter().map(|(id, a)| ident_coq(id, a)).collect::<Vec<_>>().join("; "),
         legacy.iter().map(|k| format!("{}%nat", k)).collect::<Vec<_>>().join("; "),
-        z(gap_ms as i128),
+        z(gap_ms.max(pause.map_or(0, |(_, len)| len * 60_000)) as i128),
         z(t0 as i128),
         ticks.join("; ")
     )
@@ -218,6 +278,14 @@ pub fn generate(seed: u64, scale: usize) -> Cases {
         let a = 10 + r.below(20);
         let b = a + 25 + r.below(15);
         o.push("timeline-blackout", timeline_case(&mut rr, 3 + i % 3, b + 30, 90_000, true, Some((a, b))));
+    }
+    for i in 0..(2 * scale) {
+        // the node is not scheduled for 16..40 minutes while its bootstrap node has gone for good: its peers are still
+        // there when it wakes up
+        let mut rr = r.fork();
+        let a = 22 + r.below(5);
+        let len = [16u64, 17, 25, 40][i % 4];
+        o.push("timeline-long-pause", timeline_case_p(&mut rr, 3 + i % 4, a + len + 40, 90_000, i % 2 == 0, None, false, Some((a, len))));
     }
     for i in 0..scale {
         // a full bucket of nodes without signed-peers support; the nodes with it live in the signed-peers table only
